@@ -384,7 +384,8 @@ pub fn run(tier: &str, seed: u64) -> i32 {
         objects - or with a per-key pseudo-random kind), and validate()d. Oracle: no panic; and an accepted \
         condition, when the reference parser can structure it, mentions only existing identifiers and applies \
         and/or/not only to predicates. Also wide or-groups (127-300 mappings / distinct fields) against documents that \
-        hit the far matrix columns, and 8 MiB pattern lists beyond the state limit of one automaton. Non-trivial: accepted by the loader and not an unedited G rule; distinct by \
+        hit the far matrix columns, 8 MiB pattern lists beyond the state limit of one automaton, single regexes close to \
+        the size limit next to plain members, and undefined identifiers spelled like the fields of casts. Non-trivial: accepted by the loader and not an unedited G rule; distinct by \
         rule text."
         .into();
     report.assumptions = vec!["conditions the reference parser cannot structure (e.g. unbalanced parentheses tolerated by the engine) are checked for no-panic only".into()];
